@@ -475,6 +475,61 @@ def h_history_lemma(eng):
     eng.cover("lemma.needs_frame")
 
 
+MUTATORS = {"append", "extend", "insert", "pop", "remove", "clear", "add", "discard", "update", "setdefault", "popitem", "appendleft", "popleft",
+            "sort", "reverse", "move_to_end", "difference_update", "intersection_update", "symmetric_difference_update", "__setitem__", "__delitem__"}
+
+
+def module_state_writes(tree):
+    """(module-level names bound to a mutable container, writes to them from inside functions)"""
+    holders = {}
+    for st in tree.body:
+        tgt, val = None, None
+        if isinstance(st, ast.Assign) and len(st.targets) == 1 and isinstance(st.targets[0], ast.Name):
+            tgt, val = st.targets[0].id, st.value
+        elif isinstance(st, ast.AnnAssign) and isinstance(st.target, ast.Name) and st.value is not None:
+            tgt, val = st.target.id, st.value
+        if tgt is None:
+            continue
+        mutable = isinstance(val, (ast.List, ast.Dict, ast.Set, ast.ListComp, ast.DictComp, ast.SetComp)) or \
+            (isinstance(val, ast.Call) and isinstance(val.func, (ast.Name, ast.Attribute)) and
+             (val.func.id if isinstance(val.func, ast.Name) else val.func.attr) in ("list", "dict", "set", "OrderedDict", "defaultdict", "deque", "Counter", "WeakValueDictionary"))
+        if mutable:
+            holders[tgt] = st.lineno
+    writes = []
+    for fn in ast.walk(tree):
+        if not isinstance(fn, (ast.FunctionDef, ast.AsyncFunctionDef)):
+            continue
+        local = {a.arg for a in fn.args.args + fn.args.kwonlyargs} | {n.id for n in ast.walk(fn) if isinstance(n, ast.Name) and isinstance(n.ctx, ast.Store)}
+        declared_global = {n_ for st in ast.walk(fn) if isinstance(st, ast.Global) for n_ in st.names}
+        for n in ast.walk(fn):
+            if isinstance(n, ast.Global):
+                writes += [(fn.name, n.lineno, "global " + x) for x in n.names]
+            name = None
+            if isinstance(n, ast.Call) and isinstance(n.func, ast.Attribute) and n.func.attr in MUTATORS and isinstance(n.func.value, ast.Name):
+                name, what = n.func.value.id, "." + n.func.attr + "()"
+            elif isinstance(n, (ast.Subscript, ast.Attribute)) and isinstance(n.ctx, (ast.Store, ast.Del)) and isinstance(n.value, ast.Name):
+                name, what = n.value.id, " item/attribute store"
+            elif isinstance(n, ast.AugAssign) and isinstance(n.target, ast.Name):
+                name, what = n.target.id, " augmented assignment"
+            if name is not None and name in holders and (name not in local or name in declared_global):
+                writes.append((fn.name, n.lineno, name + what))
+    return holders, writes
+
+
+def h_no_process_wide_state(eng):
+    """Flattening, look-up and copying work on the objects they are handed: no function of tree.py or ast.py writes to a container
+    that lives at module level (it would be shared by every tree of the process -- a tree and its copies, an earlier and a later
+    flatten -- and survive exceptions)."""
+    eng.cover("state.modules")
+    for modname in (TREE, "pymoca.ast"):
+        mod = eng.load_module(modname)
+        tree = eng.source.module_ast(mod.relpath)
+        eng.source.record(mod.relpath, tree, modname + "(module-level state)")
+        holders, writes = module_state_writes(tree)
+        eng.prove("state.no_function_writes_to_a_module_level_container.%s" % modname.split(".")[-1], z3.BoolVal(not writes),
+                  module_level_containers=sorted(holders), writes=writes[:6])
+
+
 HARNESSES = [("tree.flatten: real body, callees under contract", h_flatten_entry),
              ("Class.find_class copies by default", h_find_class_copies),
              ("ConstantReferenceApplier copies pulled constants", h_constant_pull),
@@ -483,9 +538,10 @@ HARNESSES = [("tree.flatten: real body, callees under contract", h_flatten_entry
              ("ownership def-use over tree.py / back ends", h_ownership),
              ("write sets of the look-up methods of ast.Class", h_lookup_methods_read_only),
              ("compiler CLI model loop", h_cli_loop),
-             ("history lemma", h_history_lemma)]
+             ("history lemma", h_history_lemma),
+             ("tree.py / ast.py keep no process-wide state", h_no_process_wide_state)]
 EXPECTED_COVER = {"flatten.entry", "find_class.default", "find_class.true", "find_class.false", "constants.nested", "constants.plain", "walker.skip_child",
-                  "memo.1_packages", "memo.2_packages", "memo.3_packages", "memo.found", "ownership.tree", "ownership.ast_lookups", "cli.loop", "lemma.history", "lemma.needs_frame"}
+                  "memo.1_packages", "memo.2_packages", "memo.3_packages", "memo.found", "ownership.tree", "ownership.ast_lookups", "cli.loop", "lemma.history", "lemma.needs_frame", "state.modules"}
 BOUNDED = True
 LEVEL = "other"
 TRUSTED = ["copy.deepcopy follows CPython's documented memo protocol (contracts/copy_model.py); separation of copy_including_children's result from the tree is C06's contract",
